@@ -6,7 +6,6 @@ import (
 	"math/rand"
 	"net/url"
 	"runtime/debug"
-	"sort"
 	"strings"
 	"sync"
 	"sync/atomic"
@@ -405,129 +404,6 @@ type sop struct {
 	Op       string // at-create, at-get, at-del, at-revoke, rt-create, rt-get, rt-del, rt-revoke, rt-rotate, code-create, code-get, code-inval, kv-create/get/del (pkce|oidc|par), jti-set, jti-valid
 	Key, Req string
 	Tab      string
-}
-
-// state encoding: sorted "k=v" entries joined by ';' (small, immutable, comparable)
-type kv map[string]string
-
-func decode(s string) kv {
-	m := kv{}
-	if s == "" {
-		return m
-	}
-	for _, e := range strings.Split(s, ";") {
-		i := strings.Index(e, "=")
-		m[e[:i]] = e[i+1:]
-	}
-	return m
-}
-
-func (m kv) encode() string {
-	var ks []string
-	for k := range m {
-		ks = append(ks, k)
-	}
-	sort.Strings(ks)
-	var b strings.Builder
-	for i, k := range ks {
-		if i > 0 {
-			b.WriteByte(';')
-		}
-		b.WriteString(k + "=" + m[k])
-	}
-	return b.String()
-}
-
-// storeStep is the sequential specification of the reference store's tables.
-func storeStep(state, input, output interface{}) (bool, interface{}) {
-	m := decode(state.(string))
-	in := input.(sop)
-	out := output.(string)
-	switch in.Op {
-	case "at-create":
-		m["at:"+in.Key] = in.Req
-		m["atidx:"+in.Req] = in.Key
-		return out == "ok", m.encode()
-	case "at-get":
-		_, ok := m["at:"+in.Key]
-		return out == map[bool]string{true: "ok", false: "not_found"}[ok], state
-	case "at-del":
-		delete(m, "at:"+in.Key)
-		return out == "ok", m.encode()
-	case "at-revoke":
-		for k, v := range m {
-			if strings.HasPrefix(k, "at:") && v == in.Req {
-				delete(m, k)
-			}
-		}
-		return out == "ok", m.encode()
-	case "rt-create":
-		m["rt:"+in.Key] = in.Req + "|active"
-		m["rtidx:"+in.Req] = in.Key
-		return out == "ok", m.encode()
-	case "rt-get":
-		v, ok := m["rt:"+in.Key]
-		want := "not_found"
-		if ok {
-			want = "ok"
-			if strings.HasSuffix(v, "|inactive") {
-				want = "inactive"
-			}
-		}
-		return out == want, state
-	case "rt-del":
-		delete(m, "rt:"+in.Key)
-		return out == "ok", m.encode()
-	case "rt-revoke":
-		sig, ok := m["rtidx:"+in.Req]
-		if !ok {
-			return out == "ok", state
-		}
-		v, ok := m["rt:"+sig]
-		if !ok {
-			return out == "not_found", state
-		}
-		m["rt:"+sig] = strings.Split(v, "|")[0] + "|inactive"
-		return out == "ok", m.encode()
-	case "code-create":
-		m["code:"+in.Key] = "active"
-		return out == "ok", m.encode()
-	case "code-get":
-		v, ok := m["code:"+in.Key]
-		want := "not_found"
-		if ok {
-			want = map[string]string{"active": "ok", "invalid": "invalidated_code"}[v]
-		}
-		return out == want, state
-	case "code-inval":
-		if _, ok := m["code:"+in.Key]; !ok {
-			return out == "not_found", state
-		}
-		m["code:"+in.Key] = "invalid"
-		return out == "ok", m.encode()
-	case "kv-create":
-		m[in.Tab+":"+in.Key] = in.Req
-		return out == "ok", m.encode()
-	case "kv-get":
-		v, ok := m[in.Tab+":"+in.Key]
-		if !ok {
-			return out == "not_found", state
-		}
-		return out == "ok:"+v, state
-	case "kv-del":
-		delete(m, in.Tab+":"+in.Key)
-		return out == "ok", m.encode()
-	case "jti-set":
-		if _, ok := m["jti:"+in.Key]; ok {
-			return out == "jti_known", state
-		}
-		m["jti:"+in.Key] = "1"
-		return out == "ok", m.encode()
-	case "jti-valid":
-		_, ok := m["jti:"+in.Key]
-		return out == map[bool]string{true: "jti_known", false: "ok"}[ok], state
-	}
-	return false, state
 }
 
 func errStr(err error) string {
